@@ -201,6 +201,27 @@ def run(ctx):
                         viol("t-variant-min", "compute_distances_t(opt=True) time pair %s pair %s: %.6f, minimum image %.6f" % ((ta, tb), (a, b), dt[k, pi], want), dict(traj=ti))
                     if want < 0.5 * w - 1e-3 and abs(dr[k, pi] - want) > 3e-5 + 2e-5 * want:
                         viol("t-variant-min-ref", "compute_distances_t(opt=False) time pair %s pair %s: %.6f, minimum image %.6f" % ((ta, tb), (a, b), dr[k, pi], want), dict(traj=ti))
+    # ---- find_closest_contact: the closest pair of two groups is the minimum of compute_distances over the pairs (within the range where the
+    # minimum image is defined); indices that name no atom are refused, not read
+    for k_ in range(ctx.n(8, 60)):
+        tq, kinds_q = make_traj(md, rng, n_frames=2, n_atoms=8, force_ortho=[True, False][k_ % 2])
+        g1 = sorted(rng.sample(range(8), rng.randrange(1, 4))); g2 = sorted(rng.sample([a for a in range(8) if a not in g1], rng.randrange(1, 4)))
+        fr_ = rng.randrange(2)
+        prs = np.array([(a, b) for a in g1 for b in g2])
+        dd = md.compute_distances(tq, prs, periodic=True)[fr_]
+        ctx.case(None, None); ctx.count("find_closest_contact calls")
+        try:
+            i_, j_, d_ = md.find_closest_contact(tq, g1, g2, frame=fr_, periodic=True)
+            if dd.min() < 0.5 * width(tq.unitcell_vectors[fr_]) - 1e-3 and (abs(d_ - dd.min()) > 3e-5 + 2e-5 * dd.min() or abs(dd[[tuple(p_) for p_ in prs.tolist()].index((i_, j_))] - dd.min()) > 3e-5):
+                viol("closest-contact|value", "find_closest_contact(%s, %s) in a %s cell: pair (%d, %d) at %.6f, the smallest compute_distances over the pairs is %.6f" % (g1, g2, kinds_q[fr_], i_, j_, d_, dd.min()), dict(groups=[g1, g2]))
+        except Exception as e:  # noqa: BLE001
+            viol("closest-contact|raises", "find_closest_contact raised %s: %s" % (type(e).__name__, str(e)[:80]), dict(groups=[g1, g2]))
+        for badg in ([8], [-1], []):
+            try:
+                r_ = md.find_closest_contact(tq, g1, badg, frame=fr_)
+                viol("closest-contact|index-not-refused", "find_closest_contact(%s, %s) on 8 atoms returned %s instead of refusing the index" % (g1, badg, (r_,)), dict(group=badg))
+            except (ValueError, IndexError, TypeError):
+                pass
     model = ctx.driver.query(reqs) if ctx.driver_ok else [None] * len(reqs)
     excluded = 0
     for mt, m in zip(meta, model):
